@@ -12,6 +12,7 @@ PROP = {
         ],
         "lanes": [
             native("c09"),
-            miri("c09", seeds_q=0, seeds_t=32, args={"miri-cases": 4, "miri-conc": 3, "miri-conc-ops": 8}),
+            miri("c09", seeds_q=0, seeds_t=24, args={"miri-cases": 3, "miri-conc": 2, "miri-conc-ops": 6}),
+            native("c09x", pkg="monx", name="files-e2e"),
         ],
     }
